@@ -248,11 +248,11 @@ impl Prop for C17 {
         let wtd = graph_strategy(&ALL_KINDS, 2, 14, me, &[1, 4, 6, 7], 5);
         let algos = graph_strategy(&ALL_KINDS, 0, 24, me, &[0, 1, 4], 3);
         prop_oneof![
-            12 => (prop_oneof![60 => tie, 10 => big, 30 => wtd, 1 => boundary_graph_strategy(&ALL_KINDS, me, &[0, 3], 6, 192)], any::<u64>(), prop_oneof![2 => Just(255u8), 1 => any::<u8>()], 0u8..5, any::<bool>()).prop_map(|(g, seed, res, thr, weighted)| {
+            12 => (prop_oneof![60 => tie, 10 => big, 30 => wtd, 1 => boundary_graph_strategy(&ALL_KINDS, me, &[0, 3], 6, 192)], crate::props::c16::seed_strategy(), prop_oneof![2 => Just(255u8), 1 => any::<u8>()], 0u8..5, any::<bool>()).prop_map(|(g, seed, res, thr, weighted)| {
                 let thr = if matches!(g.wmode, 4 | 7) && thr % 5 == 1 { 2 } else { thr };
                 DetCase::Louvain { g, seed, res, thr, weighted }
             }),
-            2 => (0u16..=120, 1u16..999, any::<bool>(), any::<u64>()).prop_map(|(n, p_milli, directed, seed)| DetCase::Gnp { n, p_milli, directed, seed }),
+            2 => (0u16..=120, 1u16..999, any::<bool>(), crate::props::c16::seed_strategy()).prop_map(|(n, p_milli, directed, seed)| DetCase::Gnp { n, p_milli, directed, seed }),
             3 => algos.prop_map(|g| DetCase::Algos { g }),
         ]
         .boxed()
